@@ -49,10 +49,15 @@ CLAIMED = {
                      '(cutSegments / reorderSegments), decides exactly the tree-level prefix relation STree.prefixB (children of dict kinds paired by '
                      'key), strict form = some leaf covers an internal node; C07_is_prefix_iff, C07_is_prefix_strict_iff, C07_is_prefix_total (never '
                      'InternalError), C07_prefix_not_larger; plus C07_guards, C07_leaf_is_prefix, C07_flatten_up_to_leaf, '
-                     'C07_kind_mismatch_value_error, C07_dict_keyset_mismatch; C07_is_prefix_of_flatten (flatten produces such encodings for every '
+                     'C07_kind_mismatch_value_error, C07_dict_keyset_mismatch; C07_flatten_up_to_refines (the agenda machine of FlattenUpTo on an '
+                     'encoding = structural match STree.upTo, any tree), C07_flatten_up_to_count, C07_up_to_iff_prefix (matching a tree against a '
+                     'shape that fits the registry succeeds exactly when the shape is a prefix of shapeOf(tree)), '
+                     'C07_flatten_up_to_agrees_with_is_prefix (for p_spec = tree_structure(p): flatten_up_to(p_spec, t) succeeds iff '
+                     'p_spec.is_prefix(tree_structure(t)); same configuration, no predicate; flatten = enc . shapeOf by Lemmas/ShapeOf.lean); '
+                     'C07_is_prefix_of_flatten (flatten produces such encodings for every '
                      'well-formed tree, configuration, predicate and registry: Lemmas/EncFlatten.lean). That every node array of the real engine is such an encoding is checked '
-                     'by the correspondence stream ((is_enc ...) lines). Agreement of flatten_up_to and prefix_errors with is_prefix, and the order laws: '
-                     'array-level model through correspondence plus an independent reference prefix relation in the oracle.' + PARTIAL,
+                     'by the correspondence stream ((is_enc ...) lines). prefix_errors (Python) and the order laws (transitivity, antisymmetry up to dict kind / order): '
+                     'correspondence plus an independent reference prefix relation in the oracle.' + PARTIAL,
                 technique='Lean 4 proof (refinement of the array walk to a tree-level relation, mutual structural induction) + correspondence + reference oracle', ref='6 C07'),
     'C08': dict(text='Proved for all shapes, any pattern of sibling sub-tree sizes: C08_children_refines (children() slices the post-order array by '
                      'num_nodes offsets into exactly the child encodings, in order), C08_child_refines (child(i) = i-th child under Python index '
